@@ -12,6 +12,8 @@
 //	stream  streaming-signed PUT (chunk sizes 1 and 64 KiB) of several lengths
 //	copy    CopyObject of a single-PUT and of a multipart object; UploadPartCopy
 //	        with and without x-amz-copy-source-range
+//	mpmix   multipart uploads mixing UploadPart and UploadPartCopy (whole / ranged
+//	        source) per part, and the same part number written twice through either API
 //	big     a 3-chunk object (2 MiB + 5) with ranges around the chunk boundaries
 //	del     every small bucket tree x every set of keys named in a batch delete
 //	        (and every single DELETE): the namespace afterwards is contents minus
@@ -35,7 +37,7 @@ import (
 
 func Main() {
 	mc.Main("C28", "exploration",
-		"complete products: part-number sets (<=3 of 10 boundary numbers, quick <=2) x upload order x full read + all ranges; single PUT lengths 0..8 x every range of the grammar {s-e, s-, -n}; streaming-signed PUT chunk size {1, 65536} x lengths; copy of single/multipart objects, UploadPartCopy x source ranges; 3-chunk object x boundary ranges; bucket trees (subsets of 6 keys, <=3) x batch-delete key sets (<=2 named keys of 7) and single deletes; distinct = (kind, input class, outcome)",
+		"complete products: mixed-API multipart uploads (part sets of size 2..3 of {1,2,3} x {UploadPart, UploadPartCopy whole, UploadPartCopy ranged} per part x ascending/descending order; same part written twice x API pair); part-number sets (<=3 of 10 boundary numbers, quick <=2) x upload order x full read + all ranges; single PUT lengths 0..8 x every range of the grammar {s-e, s-, -n}; streaming-signed PUT chunk size {1, 65536} x lengths; copy of single/multipart objects, UploadPartCopy x source ranges; 3-chunk object x boundary ranges; bucket trees (subsets of 6 keys, <=3) x batch-delete key sets (<=2 named keys of 7) and single deletes; distinct = (kind, input class, outcome)",
 		run)
 }
 
@@ -58,6 +60,13 @@ type Case struct {
 	Tree   []string `json:"tree,omitempty"`   // del: keys present
 	Delete []string `json:"delete,omitempty"` // del: keys named
 	Single bool     `json:"single,omitempty"` // del: one DELETE request instead of a batch
+	Writes []Write  `json:"writes,omitempty"` // mpmix: part writes in order
+}
+
+// Write is one write of a part through one of the two APIs.
+type Write struct {
+	Part int    `json:"part"`
+	API  string `json:"api"` // upload | copy (UploadPartCopy of a whole object) | copyrange (UploadPartCopy with x-amz-copy-source-range)
 }
 
 type env struct {
@@ -266,6 +275,140 @@ func digitsClass(parts []int) string {
 	return strings.Join(ss, "+")
 }
 
+// mpmixCase: a multipart upload whose parts are written through UploadPart and
+// UploadPartCopy in any mix, possibly the same part number more than once.  The
+// object must be the concatenation, in ascending part number, of the LAST write of each part.
+func (e *env) mpmixCase(r *mc.Run, c Case) []verdict {
+	key := e.fresh("mix-")
+	token := func(i int) []byte {
+		return []byte(fmt.Sprintf("<w%d:p%d>", i, c.Writes[i].Part) + strings.Repeat(string(rune('a'+i)), i+1))
+	}
+	var apis []string
+	seenAPI := map[string]bool{}
+	for _, w := range c.Writes {
+		if !seenAPI[w.API] {
+			seenAPI[w.API] = true
+			apis = append(apis, w.API)
+		}
+	}
+	sort.Strings(apis)
+	shape := fmt.Sprintf("apis=%s", strings.Join(apis, "+"))
+	rewrite := false
+	last := map[int]int{}
+	for i, w := range c.Writes {
+		if _, ok := last[w.Part]; ok {
+			rewrite = true
+		}
+		last[w.Part] = i
+	}
+	if rewrite {
+		shape += ":rewrite"
+	}
+	resp := e.req("POST", key, []s3sign.KV{{K: "uploads"}}, nil, nil)
+	var init struct {
+		UploadId string `xml:"UploadId"`
+	}
+	if resp.Status != 200 || xml.Unmarshal(resp.Body, &init) != nil || init.UploadId == "" {
+		return []verdict{{"multipart-initiate-fails", fmt.Sprintf("status %d %.200s", resp.Status, resp.Body)}}
+	}
+	for i, w := range c.Writes {
+		q := []s3sign.KV{{K: "partNumber", V: strconv.Itoa(w.Part)}, {K: "uploadId", V: init.UploadId}}
+		tok := token(i)
+		var resp s3env.Resp
+		switch w.API {
+		case "upload":
+			resp = e.req("PUT", key, q, nil, tok)
+		case "copy", "copyrange":
+			src := e.fresh("mixsrc-")
+			content := tok
+			hdr := []s3sign.KV{{K: "X-Amz-Copy-Source", V: "/" + bucket + "/" + src}}
+			if w.API == "copyrange" {
+				content = append(append([]byte("PAD>"), tok...), []byte("<PAD")...)
+				hdr = append(hdr, s3sign.KV{K: "X-Amz-Copy-Source-Range", V: fmt.Sprintf("bytes=4-%d", 4+len(tok)-1)})
+			}
+			if p := e.req("PUT", src, nil, nil, content); p.Status != 200 {
+				return []verdict{{"put-fails:len=small", fmt.Sprintf("source for write %d: status %d", i, p.Status)}}
+			}
+			resp = e.req("PUT", key, q, hdr, nil)
+		default:
+			mc.Fatal("unknown api %q", w.API)
+		}
+		if resp.Status != 200 {
+			e.kase(r, "mpmix|"+shape+"|part-write-fails")
+			return []verdict{{"multipart-part-write-fails:api=" + w.API, fmt.Sprintf("write %d (%+v): status %d %.200s", i, w, resp.Status, resp.Body)}}
+		}
+	}
+	var parts []int
+	for p := range last {
+		parts = append(parts, p)
+	}
+	sort.Ints(parts)
+	var want []byte
+	var b strings.Builder
+	b.WriteString("<CompleteMultipartUpload>")
+	for _, p := range parts {
+		want = append(want, token(last[p])...)
+		fmt.Fprintf(&b, "<Part><PartNumber>%d</PartNumber></Part>", p)
+	}
+	b.WriteString("</CompleteMultipartUpload>")
+	if resp := e.req("POST", key, []s3sign.KV{{K: "uploadId", V: init.UploadId}}, nil, []byte(b.String())); resp.Status != 200 {
+		return []verdict{{"multipart-complete-fails", fmt.Sprintf("status %d %.200s", resp.Status, resp.Body)}}
+	}
+	got := e.req("GET", key, nil, nil, nil)
+	if got.Status == 200 && bytes.Equal(got.Body, want) {
+		e.kase(r, "mpmix|"+shape+"|ok")
+		if len(c.Writes) == 2 && len(parts) == 2 && c.Writes[0].Part < c.Writes[1].Part && (r.Thorough() || c.Writes[0].API != c.Writes[1].API && c.Writes[0].Part == 1 && c.Writes[1].Part == 2) {
+			// every range, for the two-part ascending uploads (9 API combinations)
+			return e.checkRanges(r, "mpmix", key, want, allRanges(len(want)), "mixed-multipart")
+		}
+		return nil
+	}
+	// which writes does the object consist of?
+	rest := string(got.Body)
+	var seq []int
+	for len(rest) > 0 {
+		found := false
+		for i := range c.Writes {
+			if t := string(token(i)); strings.HasPrefix(rest, t) {
+				seq = append(seq, i)
+				rest = rest[len(t):]
+				found = true
+				break
+			}
+		}
+		if !found {
+			break
+		}
+	}
+	kind := "multipart-content-corrupt"
+	if rest == "" && got.Status == 200 {
+		stale, miss := false, false
+		have := map[int]bool{}
+		for _, i := range seq {
+			have[i] = true
+			if last[c.Writes[i].Part] != i {
+				stale = true
+			}
+		}
+		for _, i := range last {
+			if !have[i] {
+				miss = true
+			}
+		}
+		switch {
+		case stale:
+			kind = "multipart-replaced-part-still-present"
+		case miss:
+			kind = "multipart-part-missing"
+		default:
+			kind = "multipart-parts-misordered"
+		}
+	}
+	e.kase(r, "mpmix|"+shape+"|"+kind)
+	return []verdict{{fmt.Sprintf("%s:%s", kind, shape),
+		fmt.Sprintf("writes %s: object reads (status %d) as writes %v = %.100q, want %.100q", mc.JS(c.Writes), got.Status, seq, got.Body, want)}}
+}
+
 func (e *env) mpCase(r *mc.Run, c Case) []verdict {
 	key, want, v := e.multipart(c.Parts, "")
 	if v != nil {
@@ -318,7 +461,7 @@ func (e *env) mpCase(r *mc.Run, c Case) []verdict {
 			fmt.Sprintf("parts %v uploaded in that order: object reads (status %d) as parts %v = %.80q, want ascending order %.80q", c.Parts, resp.Status, got, resp.Body, want)}}
 	}
 	e.kase(r, fmt.Sprintf("mp|n=%d|digits=%s|asc=%v|ok", len(c.Parts), digitsClass(c.Parts), asc))
-	if asc && len(c.Parts) > 1 {
+	if asc && len(c.Parts) > 1 && (r.Thorough() || c.Parts[0] == 1 || c.Parts[0] == 9999) {
 		return e.checkRanges(r, "mp", key, want, allRanges(len(want)), fmt.Sprintf("multipart%d", len(c.Parts)))
 	}
 	return nil
@@ -634,6 +777,36 @@ func enumerate(r *mc.Run) []Case {
 	}
 	cases = append(cases, Case{Kind: "copy", Src: "multipart"})
 	cases = append(cases, Case{Kind: "big"})
+	// multipart uploads mixing UploadPart and UploadPartCopy: part sets of size 2..3 of
+	// {1,2,3}, every API per part, written in ascending and in descending order
+	apis := []string{"upload", "copy", "copyrange"}
+	for _, set := range [][]int{{1, 2}, {1, 3}, {2, 3}, {1, 2, 3}} {
+		sizes := make([]int, len(set))
+		for i := range sizes {
+			sizes[i] = len(apis)
+		}
+		mc.Product(sizes, func(ix []int) bool {
+			asc := make([]Write, len(set))
+			for i, p := range set {
+				asc[i] = Write{p, apis[ix[i]]}
+			}
+			desc := make([]Write, len(set))
+			for i := range asc {
+				desc[len(asc)-1-i] = asc[i]
+			}
+			cases = append(cases, Case{Kind: "mpmix", Writes: asc}, Case{Kind: "mpmix", Writes: desc})
+			return true
+		})
+	}
+	// the same part number written twice (alone, and with another part written in between): the last write wins
+	for _, a := range apis {
+		for _, b := range apis {
+			cases = append(cases,
+				Case{Kind: "mpmix", Writes: []Write{{1, a}, {1, b}}},
+				Case{Kind: "mpmix", Writes: []Write{{1, a}, {2, "upload"}, {1, b}}},
+				Case{Kind: "mpmix", Writes: []Write{{2, a}, {1, "copy"}, {2, b}}})
+		}
+	}
 	maxTree, maxNamed := 3, r.Pick(1, 2)
 	mc.Subsets(len(delUniverse), func(mask int) bool {
 		var tree []string
@@ -673,6 +846,8 @@ func (e *env) exec(r *mc.Run, c Case) []verdict {
 		vs = e.putCase(r, c)
 	case "mp":
 		vs = e.mpCase(r, c)
+	case "mpmix":
+		vs = e.mpmixCase(r, c)
 	case "stream":
 		vs = e.streamCase(r, c)
 	case "copy":
@@ -688,7 +863,10 @@ func (e *env) exec(r *mc.Run, c Case) []verdict {
 }
 
 func (e *env) runCase(r *mc.Run, c Case, nviol map[string]int) {
+	t0 := time.Now()
 	vs := e.exec(r, c)
+	r.Add("cpu_ms_"+c.Kind, time.Since(t0).Milliseconds())
+	r.Add("cases_"+c.Kind, 1)
 	r.Sample(c.Kind, map[string]interface{}{"case": c, "violations": len(vs)})
 	seen := map[string]bool{}
 	for _, v := range vs {
